@@ -44,6 +44,41 @@ def _mut_borrowed_in(body, blocks):
     return out
 
 
+def _by_interpretation(prog, I0):
+    from . import inputs
+    from .values import SIGMA
+    I = inputs.make_interp(prog, fuel=5000000)
+    I.no_summary = set(I.no_summary) | {FN}
+    x = BV.var('u', 64)
+    try:
+        r, st2 = I.call_fn(FN, [x], State({}))
+        if st2 is None:
+            return 'the function does not return'
+        if I.asserts_bad or I.panics:
+            return 'a panic site inside can fail: %s' % (list(I.asserts_bad) + list(I.panics))[:2]
+        if isinstance(r, Seq) and len(r.items) == 1 and r.items[0][0] == 'bulk' and all(p is q for p, q in zip(r.items[0][1].bits, x.bits)) \
+                and r.items[0][2] == Struct(SQ, (SIGMA,)):
+            ok_sym = True
+        elif isinstance(r, Seq) and len(r.items) == 64:
+            order = list(range(64))
+            def item_ok(it, i):
+                return it[0] == 'cond' and it[1] is x.bits[i] and it[2] == ('elem', Struct(SQ, (BV.const(i, 8),)))
+            ok_sym = all(item_ok(it, i) for it, i in zip(r.items, order)) or all(item_ok(it, i) for it, i in zip(r.items, reversed(order)))
+        else:
+            ok_sym = False
+        if not ok_sym:
+            return 'on a symbolic board the result is %r' % (r,)
+        for c in (0, 1, 1 << 63, 0x8000000000000001, 0x00FF00000000FF00, (1 << 64) - 1):
+            r, _ = I.call_fn(FN, [BV.const(c, 64)], State({}))
+            want = [i for i in range(64) if (c >> i) & 1]
+            got = [it[1].fields[0].uval() for it in r.items] if isinstance(r, Seq) and all(it[0] == 'elem' for it in r.items) else None
+            if got is None or sorted(got) != want or len(set(got)) != len(got):
+                return 'on the constant %#x the result is %r' % (c, r)
+        return None
+    except Undecided as e:
+        return 'cannot follow the body: %s' % e
+
+
 def check_squares_of_bits(ctx, prog, I, prop):
     R = prop + '.U'
     ctx.rule(R, 'map_bit_board_to_squares(b) lists the square of every set bit of b exactly once (extreme bit first) (the contract the interpreter '
@@ -54,8 +89,14 @@ def check_squares_of_bits(ctx, prog, I, prop):
     body = prog.fns[FN]
     inner, loops = I.loopinfo(body)
     if len(loops) != 1:
-        ctx.ob('map_bit_board_to_squares has one loop', False)
-        ctx.finding(R, FN, 'shape', 'expected exactly one loop, found %d: contract not decidable by this rule' % len(loops))
+        # not a single loop of its own (e.g. `vec.extend(SetSquares(board))` with a hand-written iterator type): the function is
+        # interpreted without its summary; the contract holds when the result is exactly "one Square(i) per set bit of the argument"
+        # (the bit-iterator contract of such a type is itself a 64-case induction over its `next`, see summaries.bit_iterator_contract)
+        why = _by_interpretation(prog, I)
+        ctx.ob('map_bit_board_to_squares (no loop of its own) evaluates to the squares of the set bits of its argument', why is None, sample=True)
+        if why is not None:
+            ctx.finding(R, FN, 'shape', 'expected exactly one loop, found %d, and interpreting the body does not give the contract: %s'
+                        % (len(loops), why))
         return
     h = next(iter(loops))
     lb = loops[h]
